@@ -50,8 +50,8 @@ theorem evaluate_shift (dt dm : Rat) (ref est : Pats) (tol thres : Option Rat) (
     evaluate (shiftBy dt dm ref) (shiftBy dt dm est) tol thres none n = evaluate ref est tol thres none n := by
   unfold evaluate
   simp only [Option.getD_none]
-  rw [standard_shift, establishment_shift, occurrence_shift, three_layer_shift, first_n_three_layer_shift,
-    first_n_target_proportion_shift]
+  rw [standard_shift, establishment_shift, occurrence_shift, occurrence_shift, three_layer_shift,
+    first_n_three_layer_shift, first_n_target_proportion_shift]
 
 /-- the C08 statement proper: a common time offset `c` -/
 theorem time_shift (c : Rat) (ref est : Pats) (tol thres : Rat) (n : Int) :
@@ -100,8 +100,9 @@ theorem evaluate_ref_perm {ref ref' : Pats} (h : ref.Perm ref') (est : Pats) (to
     (n : Option Int) : evaluate ref' est tol thres none n = evaluate ref est tol thres none n := by
   unfold evaluate
   simp only [Option.getD_none]
-  rw [standard_ref_perm h, establishment_ref_perm h, occurrence_ref_perm h, three_layer_ref_perm h,
-    first_n_three_layer_ref_perm h, first_n_target_proportion_ref_perm h]
+  rw [standard_ref_perm h, establishment_ref_perm h, occurrence_ref_perm h est (1 / 2),
+    occurrence_ref_perm h est (3 / 4), three_layer_ref_perm h, first_n_three_layer_ref_perm h,
+    first_n_target_proportion_ref_perm h]
 
 /-! non-vacuity -/
 def exRef : Pats := [[[(0, 60), (1, 62)]], [[(1/2, 61), (3/2, 63)], [(2, 61)]]]
